@@ -35,13 +35,13 @@ CLAIMS = {
     "C05": (
         "other",
         "instance call-graph SCC analysis; taint analysis of declared numbers with guard-dominance discharge; allocation-size taint; loop progress rule; panic-site inventory with discharge classes",
-        "Decides: the workspace's instance call graph is acyclic (bounded stack); every overflow/division assert and every subtraction in parser-reachable code either has only measures of consumed input as operands or is discharged by a dominating guard, a bounded-result callee, or a listed bound; no allocation is sized by a declared number; every loop has a progress statement on every cycle; every panic-capable construct (unwrap, indexing, advance, explicit panic) is discharged by a class (scanned offsets, digits, pop-after-push, ...) or listed. Wall time, heap constants, allocator aborts and termination of Renumber::transfer on cyclic graphs are not decided. R7: a token function reports a match only after the cursor moved by a provably positive amount, so the parsers' loops over alternatives cannot spin. R2 also enumerates the integer methods of std that trap like the operators (abs, pow, neg, ...): none takes a declared number. R4: the listed reason for NonZeroU64::new(..).unwrap() is checked (digits parser unreachable from the edge on which the look-ahead primitive answered '0'); added assertions are discharged by an interval evaluator that knows dominating comparisons, return-value joins of workspace functions and byte classes. R4 also lists std functions with a hidden panic condition (String::truncate, Vec::remove, copy_from_slice, str slicing, ...): each use in parser-reachable code is reported. R8 (shared with C06-R1): range checks before lossy conversions, every lossy `as` cast listed with its bound.",
+        "Decides: the workspace's instance call graph is acyclic (bounded stack); every overflow/division assert and every subtraction in parser-reachable code either has only measures of consumed input as operands or is discharged by a dominating guard, a bounded-result callee, or a listed bound; no allocation is sized by a declared number; every loop has a progress statement on every cycle; every panic-capable construct (unwrap, indexing, advance, explicit panic) is discharged by a class (scanned offsets, digits, pop-after-push, ...) or listed. Wall time, heap constants, allocator aborts and termination of Renumber::transfer on cyclic graphs are not decided. R7: a token function reports a match only after the cursor moved by a provably positive amount, so the parsers' loops over alternatives cannot spin. R2 also enumerates the integer methods of std that trap like the operators (abs, pow, neg, ...): none takes a declared number. R4: the listed reason for NonZeroU64::new(..).unwrap() is checked (digits parser unreachable from the edge on which the look-ahead primitive answered '0'); added assertions are discharged by an interval evaluator that knows dominating comparisons, return-value joins of workspace functions and byte classes. R4 also lists std functions with a hidden panic condition (String::truncate, Vec::remove, copy_from_slice, str slicing, ...): each use in parser-reachable code is reported. R8 (shared with C06-R1): range checks before lossy conversions, every lossy `as` cast listed with its bound. R4: a variable array or slice index needs a test against the length in front of the access.",
         "DESIGN.md §4 C05",
     ),
     "C06": (
         "other",
         "guard-dominance, def-use and control-dependence rules over MIR; affine path execution of the header bound chain; frozen oracle tables for defining positions and section counters",
-        "Numeric exactness of the decimal conversion is C13's subject. Decided: every limit the property names is installed from the right source and dominates every hand-out or narrowing: from_dimacs only behind (-limit..=limit).contains, from_code only on codes checked by lit/delta_code, lossy casts listed with their bound; DIMACS limits installed exactly when the header asks and consulted at clause attempt / clean end; AIGER max_lit = 2M+1 everywhere, defining positions, header remainder chain, section counters; inclusive operators; literal type maxima. R1 for loop variables: every assignment of the converted variable passes a range test before it can reach from_dimacs. R9 (shared with C13-R1b/R4): decimal scanning yields the exact value or None. R10: a justice literal is filed under property i only behind the test that property i holds fewer than its declared number, for the current i. R11: the declared variable count (the later literal limit) is parsed by token::var_count::<L> in all three DIMACS header parsers.",
+        "Numeric exactness of the decimal conversion is C13's subject. Decided: every limit the property names is installed from the right source and dominates every hand-out or narrowing: from_dimacs only behind (-limit..=limit).contains, from_code only on codes checked by lit/delta_code, lossy casts listed with their bound; DIMACS limits installed exactly when the header asks and consulted at clause attempt / clean end; AIGER max_lit = 2M+1 everywhere, defining positions, header remainder chain, section counters; inclusive operators; literal type maxima. R1 for loop variables: every assignment of the converted variable passes a range test before it can reach from_dimacs. R9 (shared with C13-R1b/R4): decimal scanning yields the exact value or None. R10: a justice literal is filed under property i only behind the test that property i holds fewer than its declared number, for the current i. R11: the declared variable count (the later literal limit) is parsed by token::var_count::<L> in all three DIMACS header parsers. R2 also: no other header count decides whether a limit is installed.",
         "DESIGN.md §4 C06",
     ),
     "C07": (
@@ -77,7 +77,7 @@ CLAIMS = {
     "C12": (
         "other",
         "call-graph SCC check, def-use provenance of map keys vs. redefinition tests (sibling agreement), guard/dominance and expression-shape rules over MIR",
-        "Functional equivalence of the renumbered circuit (all circuits, all assignments, all option combinations) is value-level and NOT decided; neither are the const-fold case analysis, hash-consing or completeness of the cycle detection. Decided structural necessary conditions: no recursion (explicit stack), every kind of literal used as a key of the renumbering map passes a redefinition test yielding LitAlreadyDefined, every error variant has a producer on the right path and is propagated with `?`, inputs sorted (descending) before a gate is hashed or pushed, a fresh code before every pushed gate, inputs < latches < gates numbering order, LitMap/transfer polarity xor discipline. R5/R6 additionally decide that the literal handed back from the gate arm is the stored literal xor the polarity difference, and that every constant fold is an identity of AND on every decision path (conditions evaluated over the six representative codes). R7: source-circuit literals and renumbered literals (same type) are never compared or used in each other's place (flow-sensitive numbering tags). R8: the definition table is keyed by literals as written and every question to it covers both polarities (key-expression classes: plain / flipped / normalised). R9: literals are compared for identity only with literals of the same kind (requested literal vs. a definition's output as written). R3: the `?` on a fallible step must be reached on every way on from the call.",
+        "Functional equivalence of the renumbered circuit (all circuits, all assignments, all option combinations) is value-level and NOT decided; neither are the const-fold case analysis, hash-consing or completeness of the cycle detection. Decided structural necessary conditions: no recursion (explicit stack), every kind of literal used as a key of the renumbering map passes a redefinition test yielding LitAlreadyDefined, every error variant has a producer on the right path and is propagated with `?`, inputs sorted (descending) before a gate is hashed or pushed, a fresh code before every pushed gate, inputs < latches < gates numbering order, LitMap/transfer polarity xor discipline. R5/R6 additionally decide that the literal handed back from the gate arm is the stored literal xor the polarity difference, and that every constant fold is an identity of AND on every decision path (conditions evaluated over the six representative codes). R7: source-circuit literals and renumbered literals (same type) are never compared or used in each other's place (flow-sensitive numbering tags). R8: the definition table is keyed by literals as written and every question to it covers both polarities (key-expression classes: plain / flipped / normalised). R9: literals are compared for identity only with literals of the same kind (requested literal vs. a definition's output as written). R3: the `?` on a fallible step must be reached on every way on from the call. R8 also: the definition table is read-only after lit_defs built it.",
         "DESIGN.md §4 C12",
     ),
     "C13": (
